@@ -448,3 +448,8 @@ Section Facts.
     rewrite E. reflexivity.
   Qed.
 End Facts.
+
+(** which search window a call uses (Expecter.__init__) *)
+Lemma resolve_window_spec (attr : option nat) :
+  (forall w, resolve_window (Some w) attr = w) /\ resolve_window None attr = attr.
+Proof. split; reflexivity. Qed.
